@@ -429,7 +429,8 @@ func genC09(rng *hx.Rng, tier string, w *hx.Writer) error {
 				i = 1<<31 - 2 - rng.Intn(3)
 			}
 			poly := share.CoefficientsToPriPoly(g, scalars(g, coeffs, q))
-			impl := hx.Catch(func() string { return hx.Z(ScVal(g, poly.Eval(i).V)) })
+			reEval := func() string { return hx.Z(ScVal(g, poly.Eval(i).V)) }
+			impl := hx.Catch(reEval)
 			oracle := "ok"
 			if impl != hx.Z(refEval(coeffs, i, q)) {
 				oracle = hx.Fail("eval-wrong", "PriPoly.Eval differs from the reference polynomial value")
@@ -439,7 +440,7 @@ func genC09(rng *hx.Rng, tier string, w *hx.Writer) error {
 				// possible only by coincidence of values, not by abscissa; nothing to flag
 			}
 			w.Put(hx.Case{Entry: "share", Op: 1, Args: hx.L(hx.Z(q), bigsVal(coeffs), hx.Zi(i)), Impl: impl, Oracle: oracle,
-				Tags: []string{gtag, "eval", "nt"}})
+				Tags: []string{gtag, "eval", "nt"}, Re: reEval})
 		case 1, 2, 3: // RecoverSecret / PriPoly / Commit with junk
 			k := t + rng.Intn(n-t+1)
 			if rng.Chance(25) {
@@ -457,22 +458,24 @@ func genC09(rng *hx.Rng, tier string, w *hx.Writer) error {
 				coeffs = craftFor(coeffs, i, q)
 			}
 			poly := share.CoefficientsToPriPoly(g, scalars(g, coeffs, q))
-			impl := hx.Catch(func() string { return hx.B(PtBytes(poly.Commit(nil).Eval(i).V)) })
+			reEval := func() string { return hx.B(PtBytes(poly.Commit(nil).Eval(i).V)) }
+			impl := hx.Catch(reEval)
 			oracle := "ok"
 			if impl != hx.B(PtBytes(Pt(g, refEval(coeffs, i, q), q))) {
 				oracle = hx.Fail("commit-eval-wrong", "Commit().Eval(i) is not the commitment of Eval(i)")
 			}
 			w.Put(hx.Case{Entry: "share", Op: 5, Args: hx.L(hx.Z(q), hx.Zi(grp), bigsVal(coeffs), hx.Zi(i)), Impl: impl, Oracle: oracle,
-				Tags: []string{gtag, "commit-eval", "nt"}})
+				Tags: []string{gtag, "commit-eval", "nt"}, Re: reEval})
 		case 5: // PubPoly.Eval over arbitrary commitments (incl. identity)
 			i := rng.Intn(n + 1)
 			if rng.Chance(30) && t > 1 {
 				coeffs = craftFor(coeffs, i, q)
 			}
 			pp := share.NewPubPoly(g, nil, points(g, coeffs, q))
-			impl := hx.Catch(func() string { return hx.B(PtBytes(pp.Eval(i).V)) })
+			reEval := func() string { return hx.B(PtBytes(pp.Eval(i).V)) }
+			impl := hx.Catch(reEval)
 			w.Put(hx.Case{Entry: "share", Op: 6, Args: hx.L(hx.Z(q), hx.Zi(grp), bigsVal(coeffs), hx.Zi(i)), Impl: impl,
-				Tags: []string{gtag, "pub-eval", "nt"}})
+				Tags: []string{gtag, "pub-eval", "nt"}, Re: reEval})
 		case 6: // Check
 			i := rng.Intn(n)
 			if rng.Chance(30) && t > 1 {
@@ -502,13 +505,14 @@ func genC09(rng *hx.Rng, tier string, w *hx.Writer) error {
 			poly := share.CoefficientsToPriPoly(g, scalars(g, coeffs, q))
 			pp := poly.Commit(nil)
 			// Check needs an explicit base in this version (p.b may be nil -> Mul(s, nil) = base)
-			impl := hx.Catch(func() string { return hx.Bool(pp.Check(&share.PriShare{I: i, V: Sc(g, v, q)})) })
+			reEval := func() string { return hx.Bool(pp.Check(&share.PriShare{I: i, V: Sc(g, v, q)})) }
+			impl := hx.Catch(reEval)
 			oracle := "ok"
 			if impl != hx.Bool(want) {
 				oracle = hx.Fail("check-wrong", "PubPoly.Check does not accept exactly the true share value")
 			}
 			w.Put(hx.Case{Entry: "share", Op: 7, Args: hx.L(hx.Z(q), bigsVal(coeffs), hx.Zi(i), hx.Z(v)), Impl: impl, Oracle: oracle,
-				Tags: []string{gtag, kind, "nt"}})
+				Tags: []string{gtag, kind, "nt"}, Re: reEval})
 		case 7: // PriPoly.Add
 			t2 := t
 			if rng.Chance(25) {
